@@ -256,7 +256,15 @@ static std::string const_op(Pool &p, Rng &r, size_t i, size_t j, Produced &out)
     case 26: out.add(ST::string::fill(r.below(20), 'z'), S()); out.expected.back() = S((**out.results.back()).size(), 'z'); d = "fill"; break;
     case 27: { S want; for (unsigned char c : ms) ref::enc_utf8(want, c); out.add(ST::string::from_latin_1(s.to_utf8()), want); d = "from_latin_1(to_utf8)"; break; }
     case 28: out.add(ST::string::from_std_string(s.to_std_string(), ST::assume_valid), ms); out.add(ST::string(s.c_str(), s.size(), ST::assume_valid), ms); d = "rebuild from bytes"; vrt::count("op.result_equals_source"); break;
-    default: out.add(s.replace("zzzq", "y", cs, ST::assume_valid), ms); d = "replace(no match)"; vrt::count("op.result_equals_source"); break;
+    default: {
+        // a pattern that (almost always) does not occur: the result equals the source; the expectation comes from the reference model
+        // all the same (random text contained "zzzq" once in 14 M steps of a thorough run and the fixed expectation was a false alarm)
+        const S want = ref::replace(ms, "zzzq", "y", ci);
+        out.add(s.replace("zzzq", "y", cs, ST::assume_valid), want);
+        d = "replace(no match)";
+        if (want == ms) vrt::count("op.result_equals_source");
+        break;
+    }
     }
     return sfmt("s%zu[%zu].%s", i, ms.size(), d.c_str());
 }
@@ -402,7 +410,7 @@ static void body()
     vrt::require("op.move", 2000);
     vrt::require("moved_from.adopted", 1000);
     const size_t steps = vrt::thorough() ? 120 : 60;
-    vrt::phase("histories", vrt::tier_count(6000, 150000), [&](uint64_t, Rng &r) { history(r, steps); });
+    vrt::phase("histories", vrt::tier_count(40000, 300000), [&](uint64_t, Rng &r) { history(r, steps); });
 }
 
 VRT_MAIN(body)
